@@ -18,6 +18,7 @@ import (
 	"os"
 	"strings"
 	"sync"
+	"sync/atomic"
 	"testing"
 	"time"
 
@@ -588,6 +589,14 @@ func TestVerifClassify(t *testing.T) {
 			}()
 		}
 		wg.Wait()
+		// secondary invariant: the connection-statistics state machine balances once every handler has returned
+		c := &w.cm.connStats.ipv4
+		ld := func(p *int64) int64 { return atomic.LoadInt64(p) }
+		out.Emit(map[string]any{"kind": "connstats", "cases": len(batch),
+			"in_flight": map[string]int64{"created": ld(&c.numCreated), "reading": ld(&c.numReading), "checking": ld(&c.numChecking), "discarding": ld(&c.numIODiscarding)},
+			"outcomes":  map[string]int64{"found": ld(&c.numFound), "reset": ld(&c.numReset), "timeout": ld(&c.numTimeout), "closed": ld(&c.numClosed), "err": ld(&c.numErr)},
+			"new": ld(&c.numNewConns), "resolved": ld(&c.numResolved), "transitions": ld(&c.totalTransitions)})
+		w.cm.connStats.Reset()
 		batch = nil
 	}
 	vReadLines(t, func(line []byte) {
